@@ -215,3 +215,56 @@ Proof.
     destruct (bitwise_raw_spec BAnd fx (invert_raw fx cx) (invert_raw fx cy) Hw) as (E2 & _ & _). rewrite E2. cbn [z_bop].
     rewrite Ux, Uy, D2. reflexivity.
 Qed.
+
+(* ---- arrays of codes ---- *)
+Lemma raw_arr_list_store f r o zs : 1 <= nw f -> Forall (in_range f) zs ->
+  exists w, set_val_real f r o true (raw_arr_list f zs) VInt = Ok w /\ w_codes w = zs /\ w_ovf w = false /\ w_unf w = false.
+Proof.
+  intros Hw Hr.
+  assert (Hfin: forall w, int_wres f o zs w -> w_codes w = zs /\ w_ovf w = false /\ w_unf w = false).
+  { intros w (Hc & Ho & Hu). rewrite Hc, Ho, Hu. clear Hc Ho Hu. induction Hr as [|z zs Hz _ IH]; [repeat split; reflexivity|].
+    destruct IH as (I1 & I2 & I3). cbn [map existsb]. rewrite I1, I2, I3. rewrite overflow_id by assumption.
+    unfold in_range in Hz. replace (cmax f <? z) with false by lia. replace (z <? cmin f) with false by lia. repeat split; reflexivity. }
+  unfold raw_arr_list. destruct ((64 <=? nw f) || negb (forallb fits_i64 zs)) eqn:E.
+  - destruct (set_val_raw_obj f r o zs Hw) as (w & Hs & Hi). exists w. split; [exact Hs|apply Hfin; exact Hi].
+  - apply orb_false_iff in E. destruct E as (E64 & _).
+    assert (Hzb: Forall (fun z => Z.abs z < 2^63) zs).
+    { apply Forall_forall. intros z Hin. rewrite Forall_forall in Hr. specialize (Hr z Hin).
+      unfold in_range, cmin, cmax in Hr. assert (2^(nw f - 1) <= 2^62) by (apply pow2_le; lia). assert (2^(nw f) <= 2^63) by (apply pow2_le; lia).
+      assert (2^62 < 2^63) by (apply pow2_lt; lia). assert (0 < 2^(nw f - 1)) by (apply pow2_pos; lia). destruct (sg f); lia. }
+    destruct (set_val_raw_i64 f r o zs Hw Hzb) as (w & Hs & Hi). exists w. split; [exact Hs|apply Hfin; exact Hi].
+Qed.
+
+(* x <op> y on arrays: every pair of codes gives the code of x's format whose pattern is the AND / OR / XOR of the two patterns *)
+Theorem fxp_bitwise_arr_spec b fx cxs cys ps r o : 1 <= nw fx -> pair_codes cxs cys = Some ps ->
+  exists w, fxp_bitwise_arr b fx cxs false 0 cys r o = Ok w /\
+    w_codes w = map (fun p => code_of_pattern fx (z_bop b (uimage (nw fx) (fst p)) (uimage (nw fx) (snd p)))) ps /\
+    w_ovf w = false /\ w_unf w = false.
+Proof.
+  intros Hw Hp. unfold fxp_bitwise_arr. cbn [andb]. rewrite Hp.
+  assert (E: map (fun p => bitwise_raw b fx (fst p) (snd p)) ps =
+             map (fun p => code_of_pattern fx (z_bop b (uimage (nw fx) (fst p)) (uimage (nw fx) (snd p)))) ps).
+  { apply map_ext. intros p. apply (bitwise_raw_spec b fx (fst p) (snd p) Hw). }
+  rewrite <- E. apply raw_arr_list_store; [exact Hw|].
+  apply Forall_forall. intros z Hin. apply in_map_iff in Hin. destruct Hin as (p & <- & _).
+  apply (bitwise_raw_spec b fx (fst p) (snd p) Hw).
+Qed.
+Theorem fxp_invert_arr_spec fx cxs r o : 1 <= nw fx -> Forall (in_range fx) cxs ->
+  exists w, fxp_invert_arr fx cxs r o = Ok w /\
+    w_codes w = map (fun c => code_of_pattern fx (2^(nw fx) - 1 - uimage (nw fx) c)) cxs /\ w_ovf w = false /\ w_unf w = false.
+Proof.
+  intros Hw Hr. unfold fxp_invert_arr.
+  assert (E: map (invert_raw fx) cxs = map (fun c => code_of_pattern fx (2^(nw fx) - 1 - uimage (nw fx) c)) cxs).
+  { apply map_ext_in. intros c Hin. rewrite Forall_forall in Hr. apply (invert_raw_spec fx c Hw (Hr c Hin)). }
+  rewrite <- E. apply raw_arr_list_store; [exact Hw|].
+  apply Forall_forall. intros z Hin. apply in_map_iff in Hin. destruct Hin as (c & <- & Hc).
+  rewrite Forall_forall in Hr. apply (invert_raw_spec fx c Hw (Hr c Hc)).
+Qed.
+(* pairing: equal lengths pair position by position; a single element is paired with every element of the other operand *)
+Lemma pair_codes_same xs ys : length xs = length ys -> pair_codes xs ys = Some (combine xs ys).
+Proof. intros H. unfold pair_codes. rewrite H, Nat.eqb_refl. reflexivity. Qed.
+Lemma pair_codes_scalar_left x ys : pair_codes [x] ys = Some (map (fun y => (x, y)) ys).
+Proof.
+  unfold pair_codes. destruct (Nat.eqb (length [x]) (length ys)) eqn:E; [|reflexivity].
+  apply Nat.eqb_eq in E. destruct ys as [|y [|y' ys]]; try discriminate. reflexivity.
+Qed.
